@@ -153,6 +153,84 @@ pub fn label_text(name: &str) -> String {
     }
 }
 
+/// Large, sparse instances: every statement is a fact (condition `c(v)` / `c(f)`) except a
+/// handful of "free" ones. Substituting the facts into the free statements' conditions gives a
+/// small ADF whose models, extended by the facts, are exactly the large one's (a fact is decided
+/// in the first round of every fixpoint computation, also in the reduct's).
+pub struct Sparse {
+    pub free: Vec<usize>,
+    pub small: AdfSpec,
+}
+
+fn subst(f: &F, m: &dyn Fn(usize) -> F) -> F {
+    let b = |x: &F| Box::new(subst(x, m));
+    match f {
+        F::Top => F::Top,
+        F::Bot => F::Bot,
+        F::Atom(i) => m(*i),
+        F::Not(a) => F::Not(b(a)),
+        F::And(x, y) => F::And(b(x), b(y)),
+        F::Or(x, y) => F::Or(b(x), b(y)),
+        F::Imp(x, y) => F::Imp(b(x), b(y)),
+        F::Iff(x, y) => F::Iff(b(x), b(y)),
+        F::Xor(x, y) => F::Xor(b(x), b(y)),
+    }
+}
+
+impl Sparse {
+    /// `None` unless at most `max_free` statements have a non-constant condition.
+    pub fn of(spec: &AdfSpec, max_free: usize) -> Option<Sparse> {
+        let free: Vec<usize> = (0..spec.n()).filter(|i| !matches!(spec.acs[*i], F::Top | F::Bot)).collect();
+        if free.is_empty() || free.len() > max_free {
+            return None;
+        }
+        let m = |i: usize| match free.iter().position(|x| *x == i) {
+            Some(k) => F::Atom(k),
+            None => spec.acs[i].clone(),
+        };
+        let small = AdfSpec {
+            names: free.iter().map(|i| spec.names[*i].clone()).collect(),
+            acs: free.iter().map(|i| subst(&spec.acs[*i], &m)).collect(),
+            ac_order: (0..free.len()).collect(),
+        };
+        Some(Sparse { free, small })
+    }
+
+    /// Extend an interpretation of the small ADF by the facts.
+    pub fn extend(&self, spec: &AdfSpec, small: &[V]) -> Vec<V> {
+        (0..spec.n())
+            .map(|i| match self.free.iter().position(|x| *x == i) {
+                Some(k) => small[k],
+                None => {
+                    if spec.acs[i] == F::Top {
+                        V::T
+                    } else {
+                        V::F
+                    }
+                }
+            })
+            .collect()
+    }
+
+    /// Embed a small ADF at the given positions of an `n`-statement ADF of facts.
+    pub fn embed(small: &AdfSpec, positions: &[usize], n: usize, fact: &dyn Fn(usize) -> bool) -> AdfSpec {
+        let names: Vec<String> = (0..n).map(|i| format!("s{i}")).collect();
+        let acs = (0..n)
+            .map(|i| match positions.iter().position(|p| *p == i) {
+                Some(k) => subst(&small.acs[k], &|j| F::Atom(positions[j])),
+                None => {
+                    if fact(i) {
+                        F::Top
+                    } else {
+                        F::Bot
+                    }
+                }
+            })
+            .collect();
+        AdfSpec { names, acs, ac_order: (0..n).collect() }
+    }
+}
+
 /// Labels that stress name handling: number-like, keyword-like, with spaces, punctuation,
 /// non-ASCII letters, very long. (Not used: characters out of `! & | ^ = < > ( ) ? :` — the
 /// parser accepts them inside quotes but the biodivine bridge panics on such variable names;
